@@ -23,7 +23,8 @@ VENV_PY = os.environ.get("SYMX_VENV_PY", "/venv/bin/python")
 class Case:
     def __init__(self, name, fn, params=None, replay=None, witness=None, bounds=None, stubs=(), assumptions=(),
                  max_paths=200000, timeout_s=None, env=None, functions=(), max_witness=None, shards=1, shard_depth=6,
-                 fast_ms=None, ack_first=False):
+                 fast_ms=None, ack_first=False, memory_only=False):
+        self.memory_only = memory_only
         self.fast_ms = fast_ms
         self.ack_first = ack_first
         self.name = name
@@ -54,7 +55,7 @@ def _run_case(args):
         res["case"] = case.name
         deadline = t0 + case.timeout_s if case.timeout_s else None
         ex = core.Explorer(max_paths=case.max_paths, query_timeout_ms=qt, want_witness=bool(case.witness), deadline=deadline,
-                           shard=shard, fast_ms=case.fast_ms, ack_first=case.ack_first)
+                           shard=shard, fast_ms=case.fast_ms, ack_first=case.ack_first, memory_only=case.memory_only)
         from .shims import numpy_shim, misc_shim
 
         def wrapped(ex_, **p):
@@ -167,7 +168,8 @@ def main(argv=None):
     known_ids = {f["id"]: f for f in known.get("findings", []) if f["property"] == pid}
 
     total = {"paths": 0, "ok": 0, "pruned": 0, "bound": 0, "unknown": 0, "decisions": 0, "queries": 0,
-             "solver_time": 0.0, "concretizations": 0, "checks": 0, "reach": 0}
+             "solver_time": 0.0, "concretizations": 0, "checks": 0, "reach": 0, "bounds_checks": 0, "checks_skipped": 0,
+             "fallbacks": 0}
     errors = []
     inconclusive = []
     per_case = []
@@ -192,7 +194,7 @@ def main(argv=None):
         if m.get("error"):
             continue
         for sk in m["stats"]:
-            m["stats"][sk] += r["stats"][sk]
+            m["stats"][sk] += r["stats"].get(sk, 0)
         m["complete"] = m["complete"] and r["complete"]
         m["notes"] += r["notes"]
         m["outcomes"] += r["outcomes"]
@@ -211,7 +213,7 @@ def main(argv=None):
             per_case.append({"case": c.name, "error": r["error"][:300]})
             continue
         for k in total:
-            total[k] += r["stats"][k]
+            total[k] += r["stats"].get(k, 0)
         if not r["complete"]:
             inconclusive.append("%s: %s" % (c.name, "; ".join(r["notes"][:3])))
         if r["stats"]["ok"] == 0 and not r["outcomes"]:
@@ -321,6 +323,9 @@ def main(argv=None):
             "paths_explored": total["paths"],
             "paths_by_outcome": {"ok": total["ok"], "pruned": total["pruned"], "bound": total["bound"]},
             "assertions_checked": total["checks"],
+            "index_bounds_assertions": total["bounds_checks"],
+            "functional_assertions_skipped_memory_only": total["checks_skipped"],
+            "ackermannized_fallback_queries": total["fallbacks"],
             "queries": total["queries"],
             "solver_time_s": round(total["solver_time"], 2),
             "unknown_queries": total["unknown"],
@@ -345,8 +350,8 @@ def main(argv=None):
         os.makedirs(os.path.join(VERIF, "evidence"), exist_ok=True)
         with open(os.path.join(VERIF, "evidence", pid + ".json"), "w") as f:
             json.dump(ev, f, indent=1)
-    print("[%s/%s] cases=%d paths=%d ok=%d checks=%d queries=%d solver=%.1fs witnesses_validated=%d wall=%.1fs status=%s" % (
-        pid, a.tier, len(jobs), total["paths"], total["ok"], total["checks"], total["queries"], total["solver_time"],
+    print("[%s/%s] cases=%d paths=%d ok=%d checks=%d bounds_checks=%d queries=%d solver=%.1fs witnesses_validated=%d wall=%.1fs status=%s" % (
+        pid, a.tier, len(jobs), total["paths"], total["ok"], total["checks"], total["bounds_checks"], total["queries"], total["solver_time"],
         n_witness_ok, wall, status))
     for fid, rec in sorted(known_hits.items()):
         print("KNOWN-FINDING: property=%s %s [%s]" % (pid, known_ids[fid]["text"], fid))
